@@ -181,14 +181,34 @@ static void cb_syntax_error(int tok, void *a1, int start, void *a2, int stop, vo
     if (write(C.announce_fd, b, (size_t)n) < 0) {}
   }
 }
+// Without a sanitizer, a guard zone behind each block of the caller's allocator makes a write past its end visible.
+#if defined(__SANITIZE_ADDRESS__)
+static const size_t kTreeGuard = 0;
+#else
+static const size_t kTreeGuard = 16;
+#endif
+static bool tree_guard_ok(const void *p, size_t sz) {
+  const unsigned char *g = (const unsigned char *)p + sz;
+  for (size_t i = 0; i < kTreeGuard; i++) if (g[i] != 0xC5) return false;
+  return true;
+}
+static void check_tree_guards(int parse_id) {
+  if (!kTreeGuard) return;
+  for (auto &kv : C.tblocks)
+    if (kv.second.parse_id == parse_id && !tree_guard_ok(kv.first, kv.second.size)) {
+      C.tviol.push_back("write past the end of a parse_alloc block of " + std::to_string(kv.second.size) + " bytes");
+      memset((unsigned char *)kv.first + kv.second.size, 0xC5, kTreeGuard); // report once
+    }
+}
 static void *cb_parse_alloc(int n) {
   LibExit x;
   step();
   C.callbacks++;
   if (n <= 0) C.tviol.push_back("parse_alloc called with size " + std::to_string(n));
   size_t sz = n > 0 ? (size_t)n : 1;
-  void *p = ::malloc(sz);
+  void *p = ::malloc(sz + kTreeGuard);
   memset(p, C.poison, sz);
+  memset((unsigned char *)p + sz, 0xC5, kTreeGuard);
   int ord = C.next_ord++;
   C.tblocks[p] = TBlock{sz, C.cur_parse, ord};
   C.n_alloc++;
@@ -211,6 +231,8 @@ static void cb_parse_free(void *p) {
     C.tviol.push_back("parse_free of a block of parse " + std::to_string(it->second.parse_id) + " during " +
                       (C.cur_parse >= 0 ? "parse " : "free_tree of parse ") + std::to_string(expect));
   C.shape = (C.shape * 1099511628211ull) ^ (0x2000000ull + (uint64_t)it->second.ord);
+  if (!tree_guard_ok(p, it->second.size))
+    C.tviol.push_back("write past the end of a parse_alloc block of " + std::to_string(it->second.size) + " bytes");
   memset(p, 0xDD, it->second.size);
   C.tblocks.erase(it);
   C.n_free++;
@@ -802,6 +824,7 @@ struct Exec {
     if (o->m.defined && o->m.set[0] == 2) { probe("parse_lookahead2"); second_la2 = true; }
     int j = guarded([&] { rc = api->parse(o->h, cb_read_token, cb_syntax_error, pa, pf, &root, &amb); });
     C.cur_parse = -1;
+    check_tree_guards(cur_op);
     res.stats.callbacks += C.callbacks; C.callbacks = 0;
     OpCounters c = heap_cur();
     bool fired = c.fault_fired || c.tree_fault_fired;
